@@ -129,3 +129,80 @@ def run(chk, repo, tier):
                           'starts its own group', line=e.line,
                           witness='an EVID=4 record with ADDL>0 followed by observations between the additional doses: the '
                                   'expanded records are not in chronological order and time after dose becomes negative')
+    run_more(chk, repo, dm)
+
+
+def run_more(chk, repo, dm):
+    from sa import tables as T_
+    Q5 = chk.rule('Q5', 'reset flags: every site that opens a reset group selects exactly EVID 3 and 4, and the sites agree',
+                  floor=2)
+    Q6 = chk.rule('Q6', 'frame sorts that merge records by time are stable (ties keep the recorded order)', floor=2)
+    Q7 = chk.rule('Q7', 'role look-ups through DataInfo ignore dropped columns (type and descriptor indexers agree)', floor=2)
+    # Q5: assignments X['_FLAG'] = X[<event column>] <op> <const> in functions that build '_RESETGROUP'
+    sets_ = {}
+    for f in dm.functions.values():
+        if "'_RESETGROUP'" not in unparse(f.node):
+            continue
+        evnames = {n.targets[0].id for n in walk_no_nested(f.node) if isinstance(n, ast.Assign)
+                   and isinstance(n.targets[0], ast.Name) and "typeix['event']" in unparse(n.value)}
+        for n in walk_no_nested(f.node):
+            if isinstance(n, ast.Assign) and isinstance(n.value, ast.Compare) and isinstance(n.value.left, ast.Subscript) \
+                    and isinstance(n.value.left.slice, ast.Name) and n.value.left.slice.id in evnames:
+                cmp_ = n.value
+                got = set()
+                for v in (0, 1, 2, 3, 4):
+                    test = ast.Compare(left=ast.Name(id='_v', ctx=ast.Load()), ops=cmp_.ops, comparators=cmp_.comparators)
+                    try:
+                        if T_.eval_pred(test, {'_v': v}):
+                            got.add(v)
+                    except T_.Undecidable as e:
+                        raise AnalysisError(f'Q5: cannot evaluate {unparse(cmp_)}: {e}')
+                sets_[(f.name, unparse(n))] = (got, n)
+    if len(sets_) < 2:
+        raise AnalysisError(f'Q5: reset flag definitions not found ({len(sets_)})')
+    for (fn, txt), (got, n) in sorted(sets_.items()):
+        chk.instance(Q5, f'{fn}: `{txt}` selects EVID {sorted(got)}')
+        if got != {3, 4}:
+            chk.violation(Q5, dm.rel, fn, txt,
+                          f'a reset group is opened for EVID {sorted(got)}; NM-TRAN resets the system for EVID 3 (reset) and 4 '
+                          f'(reset and dose)', line=n.lineno,
+                          witness='EVID=4 in the data and an observation after the reset at the clock time of an earlier dose: '
+                                  'it is attached to the dose period before the reset')
+    # Q6
+    n6 = 0
+    for f in dm.functions.values():
+        for c in ast.walk(f.node):
+            if isinstance(c, ast.Call) and isinstance(c.func, ast.Attribute) and c.func.attr == 'sort_values' \
+                    and any(k.arg == 'by' for k in c.keywords):
+                n6 += 1
+                kind = next((k.value.value for k in c.keywords if k.arg == 'kind' and isinstance(k.value, ast.Constant)), None)
+                ok = kind in ('stable', 'mergesort')
+                chk.instance(Q6, f'{f.name}: {unparse(c)[:70]} stable: {ok}')
+                if not ok:
+                    chk.violation(Q6, dm.rel, f.name, unparse(c)[:100],
+                                  'the default sort (quicksort) does not keep the order of records with equal keys once a group '
+                                  'has more than 16 rows', line=c.lineno,
+                                  witness='an individual with more than 16 records after ADDL expansion and two records at the '
+                                          'same time (dose and trough sample): they come out swapped')
+    if n6 == 0:
+        raise AnalysisError('Q6: no frame sort found')
+    # Q7
+    im = repo.module('pharmpy.model.datainfo')
+    for cname in ('TypeIndexer', 'DescriptorIndexer'):
+        c = im.classes.get(cname)
+        gi = c.methods.get('__getitem__') if c else None
+        if gi is None:
+            raise AnalysisError(f'{cname}.__getitem__ not found')
+        comps = [n for n in ast.walk(gi.node) if isinstance(n, ast.ListComp)]
+        if not comps:
+            raise AnalysisError(f'{cname}.__getitem__: selection comprehension not found')
+        ifs = ' and '.join(unparse(i) for i in comps[0].generators[0].ifs)
+        ok = any(isinstance(x, ast.UnaryOp) and isinstance(x.op, ast.Not) and unparse(x.operand).endswith('.drop')
+                 for i in comps[0].generators[0].ifs for x in ast.walk(i))
+        chk.instance(Q7, f'{cname}: selects columns with `{ifs}`; excludes dropped: {ok}')
+        if not ok:
+            chk.violation(Q7, im.rel, gi.qualname, f'[... if {ifs}]',
+                          'a column marked as dropped is still returned for its type/descriptor, so derivations keep using it '
+                          'instead of falling back to the next source (MDV, then EVID, then AMT)', line=comps[0].lineno,
+                          witness='drop_columns(model, ["MDV"], mark=True) on data whose MDV also flags BLQ samples: '
+                                  'get_observations still uses MDV')
